@@ -33,11 +33,27 @@ def record_routine(prog, R) -> Tuple[FunctionInfo, ast.Call]:
     best = None
     for call, targets in prog.calls_in(R.logger_call):
         for t in targets:
-            if isinstance(t, FunctionInfo) and t.cls is R.logger_cls and t is not R.logger_call and len(call.args) >= 4:
+            if isinstance(t, FunctionInfo) and t.cls is R.logger_cls and t is not R.logger_call and len(call.args) + len(call.keywords) >= 4:
                 best = (t, call)
     if best is None:
         raise AnalysisError("FunctionLogger.__call__ no longer hands the observation to a record routine")
     return best
+
+
+def record_param_roles(prog, R) -> Dict[str, str]:
+    """array name -> parameter of the record routine that feeds it (read off the stores, not the parameter order)."""
+    rec, _ = record_routine(prog, R)
+    params = [p for p in rec.params if p != "self"]
+    pflow = TagFlow(prog, rec, ProvPolicy(params))
+    role: Dict[str, str] = {}
+    for t, v, s, k in iter_stores(rec.node):
+        a = self_attr_of(t)
+        if a in ("X_orig", "X", "Y_orig", "S") and isinstance(t, ast.Subscript) and v is not None and k == "assign":
+            tags = pflow.tags(v) or ()
+            ps = sorted(tg[2:] for tg in tags if tg.startswith("P:"))
+            if len(ps) == 1 and a not in role:
+                role[a] = ps[0]
+    return role
 
 
 def per_row_arrays(prog, R) -> Dict[str, dict]:
@@ -285,26 +301,35 @@ def check(ctx):
         ctx.missing(rec, "new-row path storing X and X_orig")
     else:
         pflow = TagFlow(prog, rec, ProvPolicy(params))
-        want = {"X_orig": params[0], "X": params[1], "Y_orig": params[2], "Y": params[2]}
-        if "S" in arrays:
-            want["S"] = params[3]
-        seen = set()
+        # which parameter feeds which array is read off the stores (not the parameter order): the parameter whose
+        # provenance tag is on the stored value; X_orig / X / Y_orig / S must be fed by four different parameters
+        feeds = {}
         for a, t, v, s, k in groups[newrow]:
-            if a not in want:
-                continue
-            seen.add(a)
             tags = pflow.tags(v) if v is not None else EMPTY
-            if k != "assign" or tags is None or f"P:{want[a]}" not in tags:
-                ctx.fail(rec, s, f"log array {a} does not receive parameter '{want[a]}' unchanged on the new-row path", construct=f"{a}[row] = {canon(v) if v is not None else '?'}")
-            else:
-                ctx.ok(rec, s, f"{a}[row] <- parameter {want[a]}")
-        for a in sorted(set(want) - seen):
-            ctx.missing(rec, f"store of {a} on the new-row path")
+            ps = sorted(tg[2:] for tg in (tags or ()) if tg.startswith("P:"))
+            feeds.setdefault(a, []).append((ps if k == "assign" else [], s, v))
+        role = {}
+        for a in ("X_orig", "X", "Y_orig", "Y") + (("S",) if "S" in arrays else ()):
+            if a not in feeds:
+                ctx.missing(rec, f"store of {a} on the new-row path")
+                continue
+            for ps, s, v in feeds[a]:
+                if len(ps) != 1:
+                    ctx.fail(rec, s, f"log array {a} does not receive one of the routine's parameters unchanged on the new-row path", construct=f"{a}[row] = {canon(v) if v is not None else '?'}")
+                else:
+                    role[a] = ps[0]
+                    ctx.ok(rec, s, f"{a}[row] <- parameter {ps[0]}")
+        distinct = [role.get(a) for a in ("X_orig", "X", "Y_orig") + (("S",) if "S" in arrays else ()) if role.get(a)]
+        if len(set(distinct)) != len(distinct):
+            ctx.fail(rec, cfg.nodes[newrow].stmt, f"two of the log arrays X_orig / X / Y_orig / S are fed by the same parameter ({role})", construct="log arrays fed by the same parameter")
+        if role.get("Y") and role.get("Y_orig") and role["Y"] != role["Y_orig"]:
+            ctx.fail(rec, cfg.nodes[newrow].stmt, f"Y and Y_orig are fed by different parameters ({role['Y']} / {role['Y_orig']})", construct="Y/Y_orig parameters differ")
+        p_orig, p_int, p_val = role.get("X_orig"), role.get("X"), role.get("Y_orig")
         # returned value on the new-row path is the observed value
         rnode = cfg.nodes[newrow].stmt
         if isinstance(rnode.value, ast.Tuple) and rnode.value.elts:
             tg = pflow.tags(rnode.value.elts[0])
-            ctx.check(tg is not None and f"P:{params[2]}" in tg, rec, rnode, "returns the observed value", "new-row path does not return the observed value unchanged")
+            ctx.check(tg is not None and p_val is not None and f"P:{p_val}" in tg, rec, rnode, "returns the observed value", "new-row path does not return the observed value unchanged")
         # entry points
         for entry in (R.logger_call, R.logger_add):
             if entry is None:
@@ -314,10 +339,10 @@ def check(ctx):
                 b = bind_args(rec, c)
                 xparam = [p for p in entry.params if p != "self"][0]
                 eflow = TagFlow(prog, entry, ProvPolicy([xparam]))
-                a1 = b.get(params[1])
+                a1 = b.get(p_int) if p_int else None
                 t1 = eflow.tags(a1) if a1 is not None else None
                 ctx.check(t1 is not None and f"P:{xparam}" in t1, entry, c, "internal point argument is the entry's own x", f"record routine does not receive the entry point's own x as internal coordinates")
-                a0 = b.get(params[0])
+                a0 = b.get(p_orig) if p_orig else None
                 ok0 = False
                 if isinstance(a0, ast.Name):
                     from .common import reaching_assignments
